@@ -985,8 +985,12 @@ func (x *seqRun) main() {
 		st := false
 		if out.Status == 0 {
 			switch in.K {
-			case "create", "mkdir", "symlink", "remove", "rmdir", "setattr", "commit":
+			case "create", "mkdir", "symlink", "remove", "rmdir", "setattr":
 				st = true
+			case "commit":
+				// a COMMIT of a sub-range only promises that range (RFC 1813); only
+				// whole-file COMMITs are taken as stable points
+				st = in.Off == 0 && in.Count == 0
 			case "rename":
 				st = !(in.Obj == in.Obj2 && in.Name == in.Name2)
 			case "write":
